@@ -1,11 +1,13 @@
-"""C18 - PromQL queries return what Prometheus itself returns on the same samples.
+"""C18 - PromQL queries return what Prometheus itself returns on the same samples, wherever the store keeps them.
 
-Black-box differential check: one ts-server (built from the current tree) serves N worker processes. Each worker
-(hooks/lib/util/lifted/promql2influxql/c18_test.go, compiled inside the repo package so that it can import both the
-repo's modules and the pinned upstream github.com/prometheus/prometheus/promql) writes generated sample sets through
-the remote-write endpoint into its own fresh databases, waits at a visibility barrier, evaluates every expression of a
-finite grammar with the upstream engine over the same samples, asks the server the same instant and range queries and
-compares the answers.
+Black-box differential check: two ts-servers (built from the current tree) serve N worker processes: one with the
+default configuration, one ("layout server") with 8-row segments whose memtable is only flushed when the loader says so.
+A loader process (hooks/lib/util/lifted/promql2influxql/c18_test.go + c18_layout_test.go, compiled inside the repo
+package so that it can import both the repo's modules and the pinned upstream github.com/prometheus/prometheus/promql)
+writes every generated sample set through the remote-write endpoint once into the default server and once per storage
+layout (flushed, split, two_files, late, ...) into its own database of the layout server, and waits at a visibility
+barrier. The workers then evaluate every expression of a finite grammar with the upstream engine over the same samples,
+ask the servers the same instant and range queries and compare the answers.
 """
 import json, os, shutil, sys, time
 
@@ -18,36 +20,49 @@ PKG = "lib/util/lifted/promql2influxql"
 TEST = "TestVerifC18"
 LEVEL = "exploration"
 WORKERS = {"quick": 12, "thorough": 12}
-DEADLINE = {"quick": 170, "thorough": 2100}
-RULE = ("every expression text of the grammar (selectors with =, !=, =~, !~ x offset; 13 (quick) / 16 (thorough) range "
-        "functions x ranges {1m,5m}; 5 aggregations x {none, by, without}; binary operators {+,-,*,/,>,==,> bool,== bool} (thorough "
-        "+ %,^,<,>=,<=,!=,< bool,!= bool) "
-        "vector/scalar and vector/vector with default/on/ignoring matching; depth <= 2) is evaluated on every sample set "
-        "(quick: counter_reset, gap, irregular; thorough: + gauge, stale) as an instant query at every step of two ranges "
-        "(28 times, on and off sample timestamps) and as two range queries; distinct_nontrivial = distinct (sample set, "
-        "expression, evaluation time) for which the upstream engine returns a non-empty answer")
+DEADLINE = {"quick": 190, "thorough": 2100}
+RULE = ("every expression text of the grammar (selectors with =, !=, =~, !~ x offset; 19 (quick) / 23 (thorough) range "
+        "functions incl. quantile_over_time, changes, resets, deriv, predict_linear x ranges {1m,5m}; 5 aggregations x {none, by, "
+        "without}; binary operators {+,-,*,/,>,==,> bool,== bool} (thorough + %,^,<,>=,<=,!=,< bool,!= bool) vector/scalar and "
+        "vector/vector with default/on/ignoring matching; depth <= 2) is evaluated on every sample set (quick: counter_reset, gap, "
+        "irregular; thorough: + gauge, stale) of the default server as an instant query at every step of two ranges (28 times, on "
+        "and off sample timestamps) and as five range queries (steps 2m, 47s, 5s, 15s; one with an end off the step grid); the "
+        "part of the grammar that reads raw samples (selectors, every range function x {1m, 5m, 5m offset 1m}, aggregations "
+        "with and without grouping and binary operators over them) is evaluated again on every storage layout of every sample "
+        "set (quick: flushed, split, two_files, late; thorough: + late_mem, memory; 8-row segments, one cursor for all series) as "
+        "the same five range queries and as instant queries at the 16 steps of the 47 s range; distinct_nontrivial = distinct "
+        "(sample set, layout, expression, evaluation time or range) for which the upstream engine returns a non-empty answer")
 ASSUMPTIONS = [
     "the oracle is the upstream engine github.com/prometheus/prometheus/promql at the version pinned in go.mod (v0.50.1: "
     "closed windows [t-range, t] and [t-lookback, t]), LookbackDelta 5m = promql2influxql.DefaultLookBackDelta, over an in-memory "
-    "Queryable that trims to the select hints like the TSDB querier",
+    "Queryable that trims to the select hints like the TSDB querier; the expected answer does not depend on the storage layout",
     "values are compared with relative tolerance 1e-9 (absolute 1e-12), NaN == NaN, +Inf/-Inf exact; timestamps in ms",
     "an explicit refusal (error text says unsupported / not support) is counted as `unsupported`, not as a violation; any "
-    "other error answer or a different answer is a violation",
-    "reads follow a visibility barrier (raw selector returns every written series with its last value)",
+    "other error answer or a different answer is a violation; a query that kills the server (address space capped at 16 GB) is a "
+    "violation once the query, replayed alone against a fresh server, kills that one too",
+    "reads follow a visibility barrier (raw selector returns every written series with its first and last value)",
+    "layout server settings that must not influence answers: max-rows-per-segment = 8 (smallest legal value), memtable cold "
+    "flush 2h, background out-of-order merge and compaction off (layouts stay as written), chunk_reader_parallel = 1 (all series "
+    "of a query pass through one cursor, independent of load)",
 ]
 
 CLAIMED = True
 MANIFEST = dict(
     level=LEVEL,
     engine="enumx+blackbox",
-    technique="bounded exhaustive enumeration of PromQL expressions (finite grammar, depth <= 2) x sample sets x evaluation "
-              "times against a running ts-server, differential oracle = upstream Prometheus engine on the same samples",
+    technique="bounded exhaustive enumeration of PromQL expressions (finite grammar, depth <= 2) x sample sets x storage layouts "
+              "x evaluation times and steps against running ts-servers, differential oracle = upstream Prometheus engine on the "
+              "same samples",
     text="Every expression of a finite PromQL grammar is evaluated on generated sample sets (counter with resets, gaps longer "
          "than the look-back window, irregular scrape times, gauge, stale markers) by the running server (remote write, "
          "/api/v1/query, /api/v1/query_range) and by the upstream Prometheus engine; series, labels, timestamps and values "
-         "must agree (1e-9 relative), and a range query must equal the sequence of instant queries at its steps.",
+         "must agree (1e-9 relative), and a range query must equal the sequence of instant queries at its steps. Every sample "
+         "set is also ingested under each storage layout of a menu (one file, file + memtable, two files, out-of-order file, "
+         "out-of-order rows in the memtable; 8-row segments so that a series is 7-11 storage records per file) and the part of "
+         "the grammar that reads raw samples is evaluated on each with steps smaller than, equal to and larger than the scrape "
+         "interval: the answer must not depend on where the samples are stored.",
     note="Trusts: the upstream engine as the meaning of PromQL; the in-memory Queryable; the barrier. Exhaustive only within "
-         "the grammar, the five sample sets and the 28 evaluation times per set.",
+         "the grammar, the five sample sets, the six layouts, the 28 evaluation times and five ranges per set.",
 )
 
 
